@@ -468,6 +468,80 @@ Proof.
   apply Nat.ltb_ge in E. rewrite IH; [reflexivity|]. rewrite drop_length. lia.
 Qed.
 
+(* ================= the monitors evaluate the theorems' conclusions ================= *)
+Lemma strs_eqb_refl l : strs_eqb l l = true.
+Proof. induction l as [|x l IH]; [reflexivity|]. cbn. now rewrite seqb_refl, IH. Qed.
+
+Lemma strs_eqb_eq a : forall b, strs_eqb a b = true <-> a = b.
+Proof.
+  induction a as [|x a IH]; intros [|y b]; cbn; split; try discriminate; try reflexivity.
+  - intros H. apply andb_true_iff in H as [H1 H2]. apply seqb_eq in H1. apply IH in H2. now subst.
+  - intros H. inversion H; subst. now rewrite seqb_refl, strs_eqb_refl.
+Qed.
+
+Lemma pairs_eqb_refl l : pairs_eqb l l = true.
+Proof. induction l as [|[k v] l IH]; [reflexivity|]. cbn. now rewrite !seqb_refl, IH. Qed.
+
+(* redirect_spec is sound: it implies the propositional statement of C12_query_single_params *)
+Theorem redirect_spec_sound reenc param dest enc relay url :
+  redirect_spec reenc param dest enc relay url = true ->
+  let rawq := snd (fst (split_url dest)) in
+  has_saml_key (fst (parse_query rawq)) = false ->
+  let ps := fst (parse_query (query_of url)) in
+  values_of param ps = [enc] /\
+  values_of "RelayState" ps = (if nonempty relay then [relay] else []).
+Proof.
+  unfold redirect_spec. destruct (split_url dest) as [[base rawq] frag]. cbn [fst snd].
+  intros H Hown. rewrite Hown in H.
+  apply andb_true_iff in H as [H H4]. apply andb_true_iff in H as [H H3]. apply andb_true_iff in H as [H1 H2].
+  apply strs_eqb_eq in H2, H3. auto.
+Qed.
+
+(* and the model always satisfies it: the theorem restated on the monitor *)
+Theorem authn_redirect_meets_spec sign dest enc relay method kt url octets :
+  authn_redirect sign dest enc relay method kt = Ok (url, octets) ->
+  redirect_spec false "SAMLRequest" dest enc relay url = true.
+Proof.
+  intros H. unfold redirect_spec.
+  destruct (split_url dest) as [[base rawq] frag] eqn:Es.
+  destruct (has_saml_key (fst (parse_query rawq))) eqn:Hown; [reflexivity|].
+  unfold authn_redirect in H. rewrite Es in H.
+  destruct (authn_query sign rawq enc relay method kt) as [[q o]| |] eqn:Eq; cbn [bind] in H; try discriminate.
+  inversion H; subst; clear H.
+  destruct (split_url_clean _ _ _ _ Es) as (B1 & B2 & R1).
+  destruct (authn_query_nohash _ _ _ _ _ _ _ _ R1 Eq) as [Q1 Q2].
+  rewrite query_of_join by assumption.
+  destruct (authn_query_single_params _ _ _ _ _ _ _ _ Eq Hown) as (A & B & C & D).
+  rewrite A, B, C, D, (own_params_id _ Hown).
+  rewrite Bool.eqb_reflx, !strs_eqb_refl. unfold same_params. now rewrite pairs_eqb_refl.
+Qed.
+
+(* message IDs: the monitor holds of the model's output *)
+Lemma chunks20_length k : forall s, List.length (chunks20 k s) = k.
+Proof. induction k as [|k IH]; intros s; cbn; [reflexivity|now rewrite IH]. Qed.
+
+Lemma distinct_strs_nodup l : distinct_strs l = true <-> NoDup l.
+Proof.
+  induction l as [|x l IH]; cbn; [split; [constructor|reflexivity]|].
+  rewrite andb_true_iff, negb_true_iff, IH. split.
+  - intros [H1 H2]. constructor; [|assumption]. rewrite <- mem_str_in. congruence.
+  - intros H. inversion H; subst. split; [|assumption].
+    destruct (mem_str x l) eqn:E; [|reflexivity]. apply mem_str_in in E. contradiction.
+Qed.
+
+Theorem make_ids_meets_spec k s ids :
+  make_ids k s = Ok (ids, EmptyString) ->
+  idcase_spec {| ic_stream := s; ic_n := Z.of_nat k; ic_ids := ids |} = true.
+Proof.
+  intros H. unfold idcase_spec. cbn [ic_stream ic_n ic_ids]. rewrite Nat2Z.id.
+  destruct (make_ids_chunks _ _ _ _ H) as (A & B & C).
+  apply andb_true_iff. split; [apply andb_true_iff; split|].
+  - unfold slen. rewrite B. cbn [String.length]. apply Z.eqb_eq. lia.
+  - rewrite A. apply strs_eqb_refl.
+  - destruct (distinct_strs (chunks20 k s)) eqn:D; [|reflexivity].
+    apply distinct_strs_nodup. eapply make_ids_fresh; eauto. now apply distinct_strs_nodup.
+Qed.
+
 (* ================= non-vacuity ================= *)
 Example authn_redirect_example :
   authn_redirect (fun _ => "c2ln") "https://idp.example.com/sso?x=1&y=2" "ZW5j+/=" "a&b=c#d" RSASHA256 KRSA
